@@ -251,6 +251,7 @@ func (e *env) eval(t M) []byte {
 	case "capture":
 		v := append([]byte(nil), e.eval(m(t["of"]))...)
 		e.vars[t["name"].(string)] = v
+		e.memo = map[string][]byte{} // shared definitions may depend on captures
 		return v
 	}
 	panic(fmt.Sprint("harness: unknown term op ", t["op"]))
